@@ -2,7 +2,7 @@
 state compared after every operation; shadow priority queue = oracle of C05."""
 from common import *  # noqa
 
-TOPH = 10 ** 9
+TOPH = 10 ** 15
 
 
 def _obs(h, ret):
@@ -28,7 +28,8 @@ def run(rng, tier, res=None):
         size = rng.choice([1, 2, 3, 3, 4, 5, 6, 7, 8, 10, 12])
         is_max = rng.random() < 0.5
         contract = rng.random() < 0.8
-        alphabet = rng.choice([[1, 2], [1, 2, 3, 4], list(range(1, 4 * size + 1)), list(range(-5, 6))])
+        alphabet = rng.choice([[1, 2], [1, 2, 3, 4], list(range(1, 4 * size + 1)), list(range(-5, 6)),
+                               [10 ** 12 + t for t in range(4 * size)]])     # distinct costs whose relative gaps are ~1e-12
         nops = rng.randint(1, 60 if tier == "quick" else 120)
         # ops are generated against the REAL heap so that the generator knows the exact colours
         if rng.random() < 0.25:
